@@ -50,6 +50,10 @@ type Op struct {
 	Partial  int          `json:"partial,omitempty"` // get: >0: read at most that many bytes, then Close
 	Rollback bool         `json:"rollback,omitempty"` // get: end the read transaction by Rollback (WithTxReadClosers convention) instead of Commit
 	Batch    []W          `json:"batch,omitempty"`   // batch: writes on distinct ids in one transaction
+	// Window (del with a transaction, stacks without erasure coding): between DeletePart(tx) and the commit the
+	// part is read completely by another request (own read transaction / tx-free); the delete is not committed,
+	// so the read delivers the stored bytes; afterwards the part must read as not found (seeded defect S-C15-2).
+	Window bool `json:"window,omitempty"`
 }
 
 // Case is one program on one stack.
@@ -474,9 +478,23 @@ func run(env *ev.Env, c Case) (o ev.Outcome) {
 				err = ps.DeletePart(ctx, nil, partID(id))
 				o.Class("del:txfree")
 			} else {
+				windowFailed := false
 				err = r.inTx(false, false, func(ctx context.Context, tx database.Tx) error {
-					return ps.DeletePart(ctx, tx, partID(id))
+					if err := ps.DeletePart(ctx, tx, partID(id)); err != nil {
+						return err
+					}
+					if op.Window && present && !r.hasEC() && !r.ghost[id] {
+						o.Class("del:read-inside-delete-transaction")
+						res := r.read(id, op.Reader == "txfree" && r.caps.Has(partstore.CapabilityTxFreeGetPart), 0, 0, false)
+						if !r.checkRead(step, id, res, 0, "read inside the delete transaction of") {
+							windowFailed = true
+						}
+					}
+					return nil
 				})
+				if windowFailed {
+					return
+				}
 			}
 			if err != nil {
 				if !present {
@@ -668,6 +686,12 @@ func genCase(t *rapid.T, env *ev.Env) Case {
 		case k < 80:
 			op.Kind = "del"
 			op.TxFree = rapid.IntRange(0, 4).Draw(t, "delTxFree") == 0
+			if !op.TxFree && rapid.IntRange(0, 2).Draw(t, "delWindow") == 0 {
+				op.Window = true
+				if rapid.Bool().Draw(t, "delWindowTxFree") {
+					op.Reader = "txfree"
+				}
+			}
 		case k < 87:
 			op.Kind = "ids"
 		case k < 94:
@@ -733,7 +757,7 @@ func directed(env *ev.Env) []Case {
 					Op{Kind: "get", ID: id},
 					Op{Kind: "get", ID: id, TxFree: true, Buf: 1000})
 				if i%numIDs == numIDs-1 {
-					c.Ops = append(c.Ops, Op{Kind: "ids"}, Op{Kind: "del", ID: id}, Op{Kind: "get", ID: id}, Op{Kind: "settle"})
+					c.Ops = append(c.Ops, Op{Kind: "ids"}, Op{Kind: "del", ID: id, Window: true}, Op{Kind: "get", ID: id}, Op{Kind: "get", ID: id, TxFree: true}, Op{Kind: "settle"}, Op{Kind: "get", ID: id})
 				}
 			}
 			cs = append(cs, c)
